@@ -446,6 +446,40 @@ def proxy_method(cls, meth, remote_name, params, returns_self=False, canaries=()
     return type(f'PM_{cls}_{meth}', (ProxyMethod,), dict(qual=f'{cls}.{meth}', remote_name=remote_name, params=params, returns_self=returns_self, canaries=canaries))
 
 
+class IteratorProxyIter(Unit):
+    """IteratorProxy.__iter__: the proxy is its own iterator -- returned as is, without any request to the server.  In particular iterating through one proxy never
+    closes (or otherwise finalizes) the hosted iterator: it is SHARED by every proxy of it, and stays usable for them as long as one exists (C13)."""
+    prop = 'C14'
+    file = F
+    qual = 'IteratorProxy.__iter__'
+    canaries = (('leaving a for loop closes the shared hosted generator', '        return self\n', '        try:\n            while True:\n                yield self.__next__()\n        finally:\n            self.close()\n', ''),)
+
+    def setup(self, ex):
+        st = St()
+        st.ghost['cm'] = ()
+
+        def cm(e, s, a, k, n):
+            s = s.fork()
+            s.ghost['cm'] = s.ghost['cm'] + ((a[0].as_string() if z3.is_string_value(a[0]) else '?'),)
+            boom = fresh('remote_failure')
+            s2 = s.fork().assume(V.isinst(boom, 'Exception'), *V.cls_facts(boom))
+            return [('ok', s, fresh('remote_result')), ('raise', s2, boom)]
+        self.me = Rec(ex, 'self', immutable=True, methods={'_callmethod': Fn(cm)})
+        st.env['self'] = self.me
+        return st
+
+    def on_yield(self, ex, st, val, node):
+        st.ghost['yielded'] = True
+
+    # should the method grow a loop (a generator wrapper): any loop, trivial invariant -- the exit obligation below is what decides
+    loops = {i: LoopSpec(inv=lambda s, ex: z3.BoolVal(True), keep_ghost=('cm', 'yielded')) for i in range(4)}
+
+    def post(self, ex, outs):
+        for k, s, p in outs:
+            ex.oblige(s, 'exit: returns the proxy itself, at once: no request is sent to the hosted iterator (never closed on behalf of one consumer: the other proxies share it)',
+                      z3.BoolVal(k in ('normal', 'return') and not s.ghost['cm'] and not s.ghost.get('yielded') and p is not None and unbox_handle(ex, p) is self.me))
+
+
 PROXY_METHODS = [
     proxy_method('IteratorProxy', '__next__', '__next__', '*', canaries=(('next forwarded as send', "self._callmethod('__next__', args)", "self._callmethod('send', args)", ''),)),
     proxy_method('IteratorProxy', 'send', 'send', '*'),
@@ -826,9 +860,9 @@ class C14Lemma(LemmaUnit):
                hyps, z3.And(returned == ok, outcome == z3.If(ok, unp(res), unp(remote(exc)))))
 
 
-from contracts.c13 import ServerCreate, ServerCreateBadArgs, ServerCreateTyped, ServerCreateCallable, Managed, ManagedOutside, ProxyDecref, ProxyDecrefInServer      # noqa: E402  managed() values are live proxies to the hosted value itself
+from contracts.c13 import ServerCreate, ServerCreateBadArgs, ServerCreateTyped, ServerCreateCallable, Managed, ManagedNoTypeid, ManagedOutside, ProxyDecref, ProxyDecrefInServer      # noqa: E402  managed() values are live proxies to the hosted value itself
 UNITS = [ServerCallMethod, ServerCallMethodTyped, ServeClient, ProxyCallMethod, ProxyCallMethodInServer, GeneratedProxyMethod, CreateMethod, MakeProxyType, AutoProxyUnit, DecoratorNames,
-         NamespaceAttr, NamespaceSetAttr, NamespaceDelAttr] + PROXY_METHODS + [ServerCreate, ServerCreateBadArgs, ServerCreateTyped, ServerCreateCallable, Managed, ManagedOutside, ProxyDecref, ProxyDecrefInServer, C14Lemma]
+         NamespaceAttr, NamespaceSetAttr, NamespaceDelAttr, IteratorProxyIter] + PROXY_METHODS + [ServerCreate, ServerCreateBadArgs, ServerCreateTyped, ServerCreateCallable, Managed, ManagedNoTypeid, ManagedOutside, ProxyDecref, ProxyDecrefInServer, C14Lemma]
 ALWAYS_RUN_SCENARIOS = True      # both batteries together take about 3 s; they are the bounded stand-in for operation sequences
 SCENARIOS = [('BaseProxy._callmethod', 'replay/scenarios/c14_in_server_error.py'), ('', 'replay/scenarios/c14_proxy_vs_direct.py')]
 BOUNDED = [{'function': 'operation sequences through several proxies / threads / a child process', 'method': 'runtime scenario replay/scenarios/c14_proxy_vs_direct.py (differential against local objects)', 'bound': '6 seeds x 60 operations x 3 object kinds + fixed Value/Namespace/managed()/thread/child script', 'counted_as_proved': False}]
